@@ -16,11 +16,13 @@ mod parse_cmd;
 mod query_cmd;
 mod sep_cmd;
 mod util;
+#[cfg(feature = "web")]
+mod web_cmd;
 
 fn main() {
     let args: Vec<String> = std::env::args().collect();
     if args.len() < 2 {
-        eprintln!("usage: gv <compile|hir|parse|names|sep|query> ...");
+        eprintln!("usage: gv <compile|hir|parse|names|sep|query|web> ...");
         std::process::exit(2);
     }
     util::install_quiet_panic_hook();
@@ -38,6 +40,8 @@ fn main() {
         "sep" => sep_cmd::run(rest),
         #[cfg(feature = "query")]
         "query" => query_cmd::run(rest),
+        #[cfg(feature = "web")]
+        "web" => web_cmd::run(rest),
         other => {
             eprintln!("unknown sub-command {other}");
             2
